@@ -99,7 +99,15 @@ func runSolver(s solverDef, timeoutS int, file string) (status, out string, ms i
 	_ = cmd.Run()
 	ms = time.Since(t0).Milliseconds()
 	out = buf.String()
-	first := strings.TrimSpace(strings.SplitN(out, "\n", 2)[0])
+	first := ""
+	for _, l := range strings.Split(out, "\n") {
+		l = strings.TrimSpace(l)
+		if l == "" || strings.HasPrefix(l, "WARNING") {
+			continue
+		}
+		first = l
+		break
+	}
 	// an (error ...) before the verdict means the script was malformed: never trust what follows.
 	// (z3 4.8 prints an error for get-value after unsat; that comes after the verdict line.)
 	if strings.HasPrefix(first, "(error") {
